@@ -345,3 +345,19 @@ Theorem C11_transport_hash : forall (Hid : rval -> atom) (Hpy : rval -> N) g s n
   obj_eqb g s (transports n v) twin = true.
 Proof. exact transport_hash. Qed.
 Print Assumptions C11_transport_hash.
+
+(* ACCESSORS are pure functions of the abstract content returning fresh
+   values: calling one changes nothing in any store, and its value is
+   determined by the content (so it is the same for a twin, and the same after
+   the caller has mutated what an earlier call returned: a returned [rval]
+   holds no handle through which the store could be written). *)
+Theorem C11_accessors_pure : forall s v fld r, content_read r = true -> do_read s v fld r = (s, None).
+Proof. exact accessors_pure. Qed.
+Print Assumptions C11_accessors_pure.
+
+Theorem C11_accessor_value_function_of_content : forall g s s' x y,
+  resolve g s x = resolve g s' y ->
+  to_dict ALL_CLASSES (resolve g s x) = to_dict ALL_CLASSES (resolve g s' y) /\
+  norm ALL_CLASSES (resolve g s x) = norm ALL_CLASSES (resolve g s' y).
+Proof. exact accessor_value_function_of_content. Qed.
+Print Assumptions C11_accessor_value_function_of_content.
